@@ -345,8 +345,10 @@ def run(P, R):
           and ast.unparse(a.value) == 'True']
     crash_neg = {('process.displayed_state in [ProcessStates.FATAL, ProcessStates.UNKNOWN]', False),
                  ('not process.displayed_state == ProcessStates.EXITED or process.expected_exit', True)}
-    ok = len(pm) == 1 and {tuple(f) for f in fmr.at(pm[0])} == crash_neg | {
-        ('process.displayed_state == ProcessStates.STOPPED', True), ('process.rules.required', True)}
+    # (the facts implied by `displayed_state == STOPPED` - not FATAL/UNKNOWN, not an unexpected EXITED - may be absent)
+    got = {tuple(f) for f in fmr.at(pm[0])} if len(pm) == 1 else set()
+    need = {('process.displayed_state == ProcessStates.STOPPED', True), ('process.rules.required', True)}
+    ok = len(pm) == 1 and need <= got <= need | crash_neg
     R.check(r6, ok, 'a required STOPPED process is a possible major failure', 'status|possible', ur.loc(),
             'possible_major_failure is set under %s' % [sorted(tuple(f) for f in fmr.at(a)) for a in pm])
     cf = [a for a in own_nodes(ur.node) if isinstance(a, ast.AugAssign) and ast.unparse(a.target) == 'self.major_failure']
